@@ -86,6 +86,27 @@ Theorem C02_decode_bounded_by_packet :
 Proof. exact book_decode_no_growth. Qed.
 Print Assumptions C02_decode_bounded_by_packet.
 
+(* every successful codeword look-up strictly consumes bits (books as vorbis_book_init_decode
+   builds them): the measure that makes every decode loop terminate within the packet *)
+Theorem C02_every_lookup_consumes :
+  forall b d bs e r, init_book b = Some d -> book_decode d bs = (Some e, r) -> (length r < length bs)%nat.
+Proof. exact book_decode_progress. Qed.
+Print Assumptions C02_every_lookup_consumes.
+
+(* for ANY packet bytes under ANY accepted set-up: a packet that is not rejected yields one
+   vector per channel with exactly blocksize/2 lines - residue decode (formats 0, 1, 2),
+   coupling and the floor product never change the length of a working vector *)
+Theorem C02_decoded_packet_shape :
+  forall ds pkt, setup_wf (i_channels (ds_ident ds)) (ds_setup ds) -> 0 <= i_channels (ds_ident ds) ->
+    0 <= i_bs0 (ds_ident ds) -> 0 <= i_bs1 (ds_ident ds) ->
+    let o := synthesis ds pkt in
+    po_verdict o = POk ->
+    let n := if po_W o =? 1 then i_bs1 (ds_ident ds) else i_bs0 (ds_ident ds) in
+    length (po_chans o) = Z.to_nat (i_channels (ds_ident ds)) /\
+    Forall (fun c => chan_len c = Z.to_nat (n / 2)) (po_chans o).
+Proof. exact synthesis_shapes. Qed.
+Print Assumptions C02_decoded_packet_shape.
+
 (* the write ranges of the residue decoders, for all header values *)
 Theorem C02_residue_writes_in_range :
   (forall begin end_ grouping halfn i, 0 <= begin -> 0 < grouping -> 0 <= halfn ->
